@@ -157,7 +157,7 @@ fn n_sampled_chunks(tier: Tier) -> u64 {
     }
 }
 
-fn sampled(rng: &mut Rng) -> Scenario {
+pub(crate) fn sampled(rng: &mut Rng) -> Scenario {
     let m = gen_method(rng);
     let (mut sc, p) = gen_admissible(rng, m, ProbClass::Smooth, Entry::High, 20_000, &mut |rng, sc| {
         if sc.method != Meth::RK4 && rng.bool(0.2) {
